@@ -193,7 +193,27 @@ protected:
   template <class Str>
   void DoWriteString(const Str& val) {
     MakeScalarIfUnset();
-    wrt_.write("\"{}\"", val);
+    /// Escape the characters which JSON does not allow
+    /// inside a string (quote, backslash, control characters)
+    std::string esc;
+    for (unsigned char c: std::string(val)) {
+      switch (c) {
+      case '"': esc += "\\\""; break;
+      case '\\': esc += "\\\\"; break;
+      case '\n': esc += "\\n"; break;
+      case '\t': esc += "\\t"; break;
+      case '\r': esc += "\\r"; break;
+      default:
+        if (c < 0x20) {
+          static const char* hex = "0123456789abcdef";
+          esc += "\\u00";
+          esc += hex[c >> 4];
+          esc += hex[c & 15];
+        } else
+          esc += (char)c;
+      }
+    }
+    wrt_.write("\"{}\"", esc);
     ++n_written_;
   }
 
